@@ -23,6 +23,10 @@ Definition sum_width (w : Z) (n : nat) : Z := w + extra_bits n.
 Definition sum_expr (w : Z) (sg : bool) (ids : list nat) : expr :=
   fold_left (fun acc id => EBin Add acc (EField id)) ids (ELit 0 sg (sum_width w (List.length ids))).
 
+(* FieldArrayModel.get_product_expr: a 64-bit literal 1 (0 for the empty list) times every element *)
+Definition product_expr (sg : bool) (ids : list nat) : expr :=
+  fold_left (fun acc id => EBin Mul acc (EField id)) ids (ELit (match ids with [] => 0 | _ => 1 end) sg 64).
+
 Definition in_list (e : expr) (ids : list nat) : expr :=
   e_in e (map (fun id => (EField id, @None expr)) ids).
 
